@@ -1077,10 +1077,18 @@ func (e *Engine) verifyFunc(ct *Contract) (c *Ctx, err error) {
 	nlive := 0
 	for ri, r := range f.rets {
 		if r.st == nil || r.st.dead || r.st.pc.Op == "false" {
+			if c.eng.coverReturns && r.st != nil {
+				c.note(fmt.Sprintf("return site %s is syntactically unreachable in the model (dead=%v)", f.eng.pos(r.pos), r.st.dead))
+			}
 			continue
 		}
 		nlive++
 		evalSt := r.st.clone()
+		if c.eng.coverReturns {
+			// reachability of this return site under the accumulated assumptions (vacuity probe): `unsat` means
+			// every obligation at this site holds vacuously - dead code, or contradictory assumptions on the way
+			c.cover(r.st, fmt.Sprintf("%s#reach@ret%d(%s)", ct.Name, ri, f.eng.pos(r.pos)))
+		}
 		// parameters denote entry values in postconditions
 		for obj, v := range entryFull.vars {
 			if v.OnHeap {
